@@ -136,7 +136,14 @@ ModelFails == {n \in Clauses : ~Holds(n, Oper)}
 ObsFails == {n \in Clauses : ~Holds(n, ObsRes)}
 AsModel == /\ O.exit = Oper.exit /\ O.file = Oper.file /\ O.outf = Oper.outf /\ O.bk = Oper.bk
            /\ O.out = Oper.out
+(* records without an observation (field `m`): the transcription alone, over the WHOLE product  *)
+(* of the flag dimensions -- the exhaustive part: Oper obeys the clauses for every command line *)
+ModelOnly == "m" \in DOMAIN S
 ReportInv ==
+  IF ModelOnly
+  THEN ModelFails = {} \/ PrintT(ToJson([tag |-> "FAIL", l |-> l, fails |-> {}, model |-> ModelFails,
+                                          asmodel |-> TRUE, oper |-> Oper]))
+  ELSE
   (ModelFails = {} /\ ObsFails = {} /\ AsModel)
   \/ PrintT(ToJson([tag |-> "FAIL", l |-> l, fails |-> ObsFails, model |-> ModelFails,
                     asmodel |-> AsModel, oper |-> Oper]))
